@@ -63,8 +63,11 @@ def run(ctx):
     if recs:
         r0 = recs[len(recs) // 3]
         res.sample({"step": r0.brief(), "executed": r0.real["log"], "source": progs.render_world(r0.world, "extmod")})
+    from . import kf_witnesses
+    kf_witnesses.run_witness(res, "C02-KF1", kf_witnesses.c02_from_import_object,
+                             "a function reading a non-accepted object imported with 'from m import obj' is recomputed when its file is copied to another accepted module")
     pipeline.close_ref()
     res.rule = ("seeded histories as in C01, stores {memory, local, local+cache}; every step classified by what changed; one case = one "
                 "evaluation step; distribution of step kinds in 'distribution'")
-    res.violations = res.violations[:5]
+    res.violations = [v for v in res.violations if not v.get('kf')][:5] + [v for v in res.violations if v.get('kf')]
     return res
